@@ -363,9 +363,22 @@ pub fn check_apply(case: &Case, obs: &mut Obs) -> CheckResult {
                         if !added.is_empty() {
                             obs.class("link-added");
                             // new links come up through a real REG3 so traffic can use them
+                            // ... sent through the kernel to the new link's socket: its reader task must exist
                             for a in &added {
                                 if let Some(i) = sh.st.conns.iter().position(|c| c.local_ip == *a) {
-                                    sh.deliver_reg3(i);
+                                    let _ = sh.rx_send_link(i, &[0x92, 0x02]);
+                                }
+                            }
+                            sh.pump(1);
+                            sh.drain_queue();
+                            for a in &added {
+                                if let Some(i) = sh.st.conns.iter().position(|c| c.local_ip == *a) {
+                                    if !sh.st.conns[i].connected {
+                                        // one more round before judging
+                                        sh.pump(1);
+                                        sh.drain_queue();
+                                    }
+                                    vensure!(sh.st.conns[i].connected, "new-link-not-read", "op {oi}: the REG3 sent to the socket of the newly added link {a} was never read (no reader task for it?)");
                                 }
                             }
                         }
